@@ -9,6 +9,8 @@ use curve25519_dalek::montgomery::MontgomeryPoint;
 use curve25519_dalek::ristretto::{CompressedRistretto, RistrettoPoint};
 use curve25519_dalek::scalar::Scalar;
 use curve25519_dalek::traits::MultiscalarMul;
+use sha2::{Digest, Sha512};
+use subtle::ConstantTimeEq;
 use curve25519_dalek::verif_hooks as vh;
 use ed25519_dalek::{Signer, SigningKey};
 use std::hint::black_box;
@@ -40,6 +42,13 @@ pub enum CtVal {
     B64([u8; 64]),
     Fe(vh::FeLimbs),
     ChoiceFe(Choice, vh::FeLimbs),
+    Bit(Choice),
+    RisList(Vec<CompressedRistretto>),
+    FeList(Vec<vh::FeLimbs>),
+    ScBatch(Scalar, Vec<Scalar>),
+    OptB64(Option<[u8; 64]>),
+    Expanded(ed25519_dalek::hazmat::ExpandedSecretKey),
+    Shared(x25519_dalek::SharedSecret),
 }
 
 type Job = Box<dyn FnMut() -> CtVal>;
@@ -203,6 +212,212 @@ fn prepare(op: &str, a: &[&str]) -> Result<Job, Fail> {
                 CtVal::ChoiceFe(c, r)
             })
         }
+        // ---- batch operations (inputs allocated before, moved out inside)
+        "ris.double_compress_batch" => {
+            arity(a, 1)?;
+            let pts = ris_list(a[0])?;
+            Box::new(move || {
+                CtVal::RisList(RistrettoPoint::double_and_compress_batch(black_box(&pts)))
+            })
+        }
+        "fe.batch_invert" => {
+            arity(a, 1)?;
+            let mut v: Vec<vh::FeLimbs> =
+                list(a[0])?.into_iter().map(fe).collect::<Result<_, _>>()?;
+            Box::new(move || {
+                vh::fe_batch_invert(black_box(&mut v));
+                CtVal::FeList(core::mem::take(&mut v))
+            })
+        }
+        "sc.batch_invert" => {
+            arity(a, 1)?;
+            let mut v = sc_list(a[0])?;
+            Box::new(move || {
+                let r = Scalar::batch_invert(black_box(&mut v));
+                CtVal::ScBatch(r, core::mem::take(&mut v))
+            })
+        }
+        // ---- Ristretto
+        "ris.mul" => {
+            arity(a, 2)?;
+            let c = cris(a[0])?;
+            let s = sc(a[1])?;
+            let p = dec_ris(&c)?;
+            Box::new(move || CtVal::Ris(black_box(&p) * black_box(&s)))
+        }
+        "ris.mul_base" => {
+            arity(a, 1)?;
+            let s = sc(a[0])?;
+            Box::new(move || CtVal::Ris(RistrettoPoint::mul_base(black_box(&s))))
+        }
+        "ris.msm_ct" => {
+            arity(a, 2)?;
+            let s = sc_list(a[0])?;
+            let p = ris_list(a[1])?;
+            if s.len() != p.len() {
+                return Err(BADREQ);
+            }
+            Box::new(move || {
+                CtVal::Ris(RistrettoPoint::multiscalar_mul(
+                    black_box(&s).iter(),
+                    black_box(&p).iter(),
+                ))
+            })
+        }
+        "ris.eq" => {
+            arity(a, 2)?;
+            let (c, d) = (cris(a[0])?, cris(a[1])?);
+            let (p, q) = (dec_ris(&c)?, dec_ris(&d)?);
+            Box::new(move || CtVal::Bit(black_box(&p).ct_eq(black_box(&q))))
+        }
+        "ris.elligator" => {
+            arity(a, 1)?;
+            let r = hx::<32>(a[0])?;
+            Box::new(move || CtVal::Ris(vh::elligator_ristretto_flavor(black_box(&r))))
+        }
+        // ---- Edwards point ops
+        "ed.eq" => {
+            arity(a, 2)?;
+            let (c, d) = (ced(a[0])?, ced(a[1])?);
+            let (p, q) = (dec_ed(&c)?, dec_ed(&d)?);
+            Box::new(move || CtVal::Bit(black_box(&p).ct_eq(black_box(&q))))
+        }
+        "ed.add" | "ed.sub" => {
+            arity(a, 2)?;
+            let (c, d) = (ced(a[0])?, ced(a[1])?);
+            let (p, q) = (dec_ed(&c)?, dec_ed(&d)?);
+            if op == "ed.add" {
+                Box::new(move || CtVal::Ed(black_box(&p) + black_box(&q)))
+            } else {
+                Box::new(move || CtVal::Ed(black_box(&p) - black_box(&q)))
+            }
+        }
+        "ed.neg" => {
+            arity(a, 1)?;
+            let p = pt(a[0])?;
+            Box::new(move || CtVal::Ed(-*black_box(&p)))
+        }
+        "ed.basepoint_table" => {
+            arity(a, 1)?;
+            let s = sc(a[0])?;
+            #[cfg(feature = "tables")]
+            {
+                Box::new(move || {
+                    CtVal::Ed(curve25519_dalek::constants::ED25519_BASEPOINT_TABLE * black_box(&s))
+                })
+            }
+            #[cfg(not(feature = "tables"))]
+            {
+                let _ = s;
+                return Err(Fail::Skip);
+            }
+        }
+        "ed.table" => {
+            arity(a, 3)?;
+            let radix = int(a[0])?;
+            let c = ced(a[1])?;
+            let s = sc(a[2])?;
+            if ![16, 32, 64, 128, 256].contains(&radix) {
+                return Err(BADREQ);
+            }
+            let p = dec_ed(&c)?;
+            #[cfg(feature = "tables")]
+            {
+                use curve25519_dalek::edwards::{
+                    EdwardsBasepointTableRadix128, EdwardsBasepointTableRadix16,
+                    EdwardsBasepointTableRadix256, EdwardsBasepointTableRadix32,
+                    EdwardsBasepointTableRadix64,
+                };
+                use curve25519_dalek::traits::BasepointTable;
+                // the table is created (and boxed) before the window; only
+                // `mul_base` runs inside it
+                macro_rules! go {
+                    ($t:ty) => {{
+                        let t: Box<$t> = Box::new(<$t>::create(&p));
+                        Box::new(move || CtVal::Ed(black_box(&*t).mul_base(black_box(&s)))) as Job
+                    }};
+                }
+                match radix {
+                    16 => go!(EdwardsBasepointTableRadix16),
+                    32 => go!(EdwardsBasepointTableRadix32),
+                    64 => go!(EdwardsBasepointTableRadix64),
+                    128 => go!(EdwardsBasepointTableRadix128),
+                    _ => go!(EdwardsBasepointTableRadix256),
+                }
+            }
+            #[cfg(not(feature = "tables"))]
+            {
+                let _ = (p, s);
+                return Err(Fail::Skip);
+            }
+        }
+        // NOTE: `LookupTable<ProjectiveNielsPoint>` is not nameable outside
+        // the crate and the existing hook builds the table itself, so the
+        // (public-point-only, x-independent) table construction is inside the
+        // window together with `select(x)`.
+        "ed.select" => {
+            arity(a, 2)?;
+            let c = ced(a[0])?;
+            let x = int_in(a[1], -8, 8)? as i8;
+            let p = dec_ed(&c)?;
+            Box::new(move || {
+                CtVal::Ed(vh::lookup_table_select_projective_niels(
+                    black_box(&p),
+                    black_box(x),
+                ))
+            })
+        }
+        // ---- Ed25519
+        "eds.sign_ph" => {
+            arity(a, 3)?;
+            let sk = SigningKey::from_bytes(&hx::<32>(a[0])?);
+            let msg = unhex(a[1])?;
+            let ctx: Option<Vec<u8>> = if a[2] == "~" { None } else { Some(unhex(a[2])?) };
+            // the prehash is fed before the window
+            let mut digest = Some(Sha512::new().chain_update(&msg));
+            Box::new(move || {
+                let d = digest.take().expect("single use");
+                CtVal::OptB64(
+                    black_box(&sk)
+                        .sign_prehashed(d, black_box(ctx.as_deref()))
+                        .ok()
+                        .map(|s| s.to_bytes()),
+                )
+            })
+        }
+        "eds.expand" => {
+            arity(a, 1)?;
+            let seed = hx::<32>(a[0])?;
+            Box::new(move || {
+                CtVal::Expanded(ed25519_dalek::hazmat::ExpandedSecretKey::from(black_box(&seed)))
+            })
+        }
+        // ---- X25519 / Montgomery
+        "x.static" => {
+            arity(a, 2)?;
+            let (k, their) = (hx::<32>(a[0])?, hx::<32>(a[1])?);
+            Box::new(move || {
+                CtVal::Shared(
+                    x25519_dalek::StaticSecret::from(black_box(k))
+                        .diffie_hellman(&x25519_dalek::PublicKey::from(black_box(their))),
+                )
+            })
+        }
+        "x.pubkey" => {
+            arity(a, 1)?;
+            let k = hx::<32>(a[0])?;
+            Box::new(move || {
+                CtVal::B32(
+                    x25519_dalek::PublicKey::from(&x25519_dalek::StaticSecret::from(black_box(k)))
+                        .to_bytes(),
+                )
+            })
+        }
+        "mont.elligator" => {
+            arity(a, 1)?;
+            let r = hx::<32>(a[0])?;
+            Box::new(move || CtVal::B32(vh::elligator_encode(black_box(&r)).to_bytes()))
+        }
         _ => return Err(BADREQ),
     })
 }
@@ -221,6 +436,22 @@ fn format(v: CtVal) -> R {
         CtVal::ChoiceFe(c, l) => {
             push_choice(&mut o, c);
             push_fe(&mut o, &l);
+        }
+        CtVal::Bit(c) => push_choice(&mut o, c),
+        CtVal::RisList(v) => push_hex_list(&mut o, v.iter().map(|c| c.to_bytes())),
+        CtVal::FeList(v) => push_hex_list(&mut o, v.iter().map(vh::fe_as_bytes)),
+        CtVal::ScBatch(r, v) => {
+            push_hex(&mut o, r.as_bytes());
+            push_hex_list(&mut o, v.iter().map(|s| s.to_bytes()));
+        }
+        CtVal::OptB64(b) => push_hex(&mut o, &b.ok_or(Fail::Err)?),
+        CtVal::Expanded(e) => {
+            push_hex(&mut o, e.scalar.as_bytes());
+            push_hex(&mut o, &e.hash_prefix);
+        }
+        CtVal::Shared(s) => {
+            push_hex(&mut o, s.as_bytes());
+            push_bool(&mut o, s.was_contributory());
         }
     }
     Ok(o)
